@@ -2,6 +2,7 @@ package authorize_sender
 
 import (
 	"context"
+	"strings"
 
 	"github.com/emersion/go-message/textproto"
 	modconfig "github.com/foxcpp/maddy/framework/config/module"
@@ -28,7 +29,7 @@ var c15Addrs = []c15Addr{
 	{"alice@example.org", cAlice},
 	{"ALICE@EXAMPLE.ORG", cAlice},
 	{"sales@example.org", cSales},
-	{"malice@example.org", cOther},       // third address of the domain; has the entitled address as a string suffix
+	{"malice@example.org", cOther},    // third address of the domain; has the entitled address as a string suffix
 	{"mallory@notexample.org", cEvil}, // foreign domain that has the entitled domain as a string suffix
 	{"Alice@Example.Org", cAlice},
 	{"Sales@EXAMPLE.org", cSales},
@@ -130,33 +131,33 @@ func harness_C15_authz() {
 	hdr := textproto.Header{}
 	f1 := c15Addrs[nondetChoice("from1", verifParam("naddr", len(c15Addrs)))]
 	f2 := c15Addrs[nondetChoice("from2", verifParam("naddr", len(c15Addrs)))]
-	var fromClasses []int
+	var fromAddrs []c15Addr
 	layout := nondetChoice("layout", 6)
 	switch layout {
 	case 0: // one From
 		hdr.Add("From", f1.text)
-		fromClasses = []int{f1.class}
+		fromAddrs = []c15Addr{f1}
 	case 1: // display name that looks like another address
 		hdr.Add("From", "\""+f2.text+"\" <"+f1.text+">")
-		fromClasses = []int{f1.class}
+		fromAddrs = []c15Addr{f1}
 	case 2: // two addresses in one field
 		hdr.Add("From", f1.text+", "+f2.text)
-		fromClasses = []int{f1.class, f2.class}
+		fromAddrs = []c15Addr{f1, f2}
 	case 3: // two From fields
 		hdr.Add("From", f1.text)
 		hdr.Add("From", f2.text)
-		fromClasses = []int{f1.class, f2.class}
+		fromAddrs = []c15Addr{f1, f2}
 	case 4: // group syntax
 		hdr.Add("From", "Team: "+f1.text+", "+f2.text+";")
-		fromClasses = []int{f1.class, f2.class}
+		fromAddrs = []c15Addr{f1, f2}
 	case 5: // no From
 	}
-	senderClass := -1
+	var senderAddr *c15Addr
 	switch nondetChoice("sender", 3) {
 	case 1:
 		s := c15Addrs[nondetChoice("senderAddr", verifParam("naddr", len(c15Addrs)))]
 		hdr.Add("Sender", s.text)
-		senderClass = s.class
+		senderAddr = &s
 	case 2:
 		hdr.Add("Sender", "not an address")
 	}
@@ -176,19 +177,37 @@ func harness_C15_authz() {
 		}
 		verifFail("C15.user-without-entitlement-accepted")
 	}
-	if !c15Entitled(kind, mf.class) {
+	// under from_normalize noop an address is entitled only in the exact spelling of the table entry
+	exact := fnoop == 1
+	ent := func(a c15Addr) bool {
+		if !c15Entitled(kind, a.class) {
+			return false
+		}
+		if exact {
+			switch kind {
+			case 0:
+				return a.text == "alice@example.org"
+			case 1:
+				return a.text == "alice@example.org" || a.text == "sales@example.org"
+			case 2:
+				return strings.HasSuffix(a.text, "@example.org") && strings.Count(a.text, "@") == 1
+			}
+		}
+		return true
+	}
+	if !ent(mf) {
 		verifFail("C15.envelope-sender-not-entitled")
 	}
-	if len(fromClasses) == 0 {
+	if len(fromAddrs) == 0 {
 		verifFail("C15.accepted-without-author")
 	}
 	allFrom := true
-	for _, cl := range fromClasses {
-		if !c15Entitled(kind, cl) {
+	for _, a := range fromAddrs {
+		if !ent(a) {
 			allFrom = false
 		}
 	}
-	senderOK := senderClass >= 0 && c15Entitled(kind, senderClass)
+	senderOK := senderAddr != nil && ent(*senderAddr)
 	if !allFrom && !senderOK {
 		verifFail("C15.author-not-entitled")
 	}
